@@ -1,6 +1,7 @@
 #!/venv/bin/python
 """Run every seeded change against the quick check of its own property (and optionally others).
 usage: tools/seed_matrix.py [SEED ...]   -> appends to seeded/RESULTS.jsonl
+       tools/seed_matrix.py --shadow <out.jsonl> [SEED ...]   (PYTHONPATH shadow copies: /repo and the evidence stay untouched)
 Each seed is applied to /repo's working tree (git apply, falling back to patch_rebased.diff), the
 check is run, and the tree is reset. NOTHING is committed to /repo."""
 import json
@@ -37,7 +38,49 @@ def apply(seed):
     return None
 
 
+def shadow(seed):
+    """copy of the package with the seed applied, to be put on PYTHONPATH; /repo is not touched"""
+    import shutil
+    import tempfile
+    repo = os.environ.get("VP_RUN_REPO") or "/repo"
+    d = tempfile.mkdtemp(prefix="seed_")
+    shutil.copytree(os.path.join(repo, "processscheduler"), os.path.join(d, "processscheduler"), ignore=shutil.ignore_patterns("__pycache__"))
+    for name in ("patch_rebased.diff", "patch.diff"):
+        p = os.path.join(VERIF, "seeded", seed, name)
+        if os.path.exists(p):
+            r = sh(f"git apply --include='processscheduler/*' {p}", cwd=d)
+            if r.returncode == 0:
+                return d, name
+    shutil.rmtree(d, ignore_errors=True)
+    return None, None
+
+
+def main_shadow(seeds, out):
+    import shutil
+    for seed in seeds:
+        prop = seed.split("-")[1] if seed.startswith("R2-") else seed.split("-")[0]
+        d, which = shadow(seed)
+        for check in [prop] + EXTRA.get(seed, []):
+            if d is None:
+                rec = {"seed": seed, "check": check, "applied": None, "result": "patch does not apply to the fixed tree (superseded by a fix: commit or needs a rebase)"}
+            else:
+                r = sh(f"/venv/bin/python -B {VERIF}/run_check.py {check} --tier quick", cwd=VERIF, env=dict(os.environ, PYTHONPATH=d, VERIF_NO_EVIDENCE="1"))
+                viol = [l for l in r.stdout.splitlines() if l.startswith("VIOLATION")]
+                inc = [l for l in r.stdout.splitlines() if l.startswith("INCONCLUSIVE")]
+                rec = {"seed": seed, "check": check, "applied": which, "exit": r.returncode, "violations": len(viol),
+                       "inconclusive": len(inc), "first": (viol or inc or [""])[0][:300]}
+            print(json.dumps(rec), flush=True)
+            with open(out, "a") as f:
+                f.write(json.dumps(rec) + "\n")
+        if d:
+            shutil.rmtree(d, ignore_errors=True)
+
+
 def main():
+    if len(sys.argv) > 1 and sys.argv[1] == "--shadow":
+        out = sys.argv[2]
+        seeds = sys.argv[3:] or sorted(x for x in os.listdir(os.path.join(VERIF, "seeded")) if os.path.isdir(os.path.join(VERIF, "seeded", x)) and x != "refactors")
+        return main_shadow(seeds, out)
     seeds = sys.argv[1:] or sorted(x for x in os.listdir(os.path.join(VERIF, "seeded")) if os.path.isdir(os.path.join(VERIF, "seeded", x)) and x != "refactors")
     assert clean(), "/repo has uncommitted changes"
     for seed in seeds:
